@@ -1,3 +1,42 @@
-(* C18 - placeholder while the harness is brought up *)
-From GV Require Import Base.Prelude SchemaOps.Schema SchemaOps.Introspect.
-Example C18_example : True. Proof. exact I. Qed.
+(* C18 - introspection describes the schema truthfully.  Theorems only; proofs in
+   SchemaOps/IntrospectProps.v. *)
+From GV Require Import Base.Prelude SchemaOps.Schema SchemaOps.Introspect SchemaOps.IntrospectProps.
+
+(* Under every combination of the 7 options the result of the standard introspection query equals
+   the full-options result minus exactly the switched-off attributes, the deprecated input values
+   (input_value_deprecation off) and the deprecated directives (directive deprecation off);
+   for every schema and every printer of default-value literals. *)
+Theorem C18_options_prune : forall pv s o, introspect pv s o = prune o (introspect pv s full).
+Proof. exact options_prune. Qed.
+Print Assumptions C18_options_prune.
+
+(* __type(name: n) { ...FullType } is the entry of the type list carrying that name (null when
+   there is none), under every option combination. *)
+Theorem C18_type_lookup_agrees : forall pv s o n,
+  type_lookup pv s o n = entry_named n (introspect pv s o).
+Proof. exact type_lookup_agrees. Qed.
+Print Assumptions C18_type_lookup_agrees.
+
+(* pruning with all options on changes nothing *)
+Theorem C18_prune_full_identity : forall pv s, prune full (introspect pv s full) = introspect pv s full.
+Proof. intros. symmetry. apply options_prune. Qed.
+Print Assumptions C18_prune_full_identity.
+
+(* non-vacuity: a deprecated argument and a deprecated directive disappear, descriptions go *)
+Definition ex_pv (v : value) : list N := match v with VLeaf _ x => x | _ => [] end.
+Definition ex_q : typedef :=
+  mkType 1 [81] (Some [100])
+    [mkField [102] [mkArg [97] (TNamed [81]) None None (Some [120]); mkArg [98] (TList (TNamed [81])) (Some (VLeaf 1 [49])) None None]
+       (TNonNull (TNamed [81])) (Some [100]) None] [] [] [] [] None false.
+Definition ex_s : schema :=
+  mkSchema (Some [115]) (Some [81]) None None [ex_q]
+    [mkDir [100] None [] [[70]] true (Some [114]); mkDir [101] None [] [[70]] false None].
+Definition ex_none : opts := mkOpts false false false false false false false.
+
+Example C18_example :
+  introspect ex_pv ex_s ex_none <> introspect ex_pv ex_s full
+  /\ (match get_key k_directives (get_key k_schema (introspect ex_pv ex_s ex_none)) with JArr l => length l | _ => O end) = 1%nat
+  /\ (match get_key k_directives (get_key k_schema (introspect ex_pv ex_s full)) with JArr l => length l | _ => O end) = 2%nat
+  /\ get_key k_name (type_lookup ex_pv ex_s full [81]) = JStr [81]
+  /\ type_lookup ex_pv ex_s full [82] = JNull.
+Proof. repeat split; try reflexivity. intro H. discriminate H. Qed.
